@@ -2,11 +2,12 @@
 # seed_matrix.sh [seed ids...] : for every kept seeded change: confirm it on the current /repo HEAD (tests pass with it,
 # its demonstration exits 0 on the unchanged tree and 1 on the changed tree) and run the quick check(s) that are said to
 # detect it against a scratch worktree carrying the change.  Writes seeded/MATRIX.txt.  /repo itself is never touched.
+# PAR=<n> seeds are processed at a time (default 3).
 cd /verif
-declare -A OVERRIDE=([C01-c]="C05 C02" [C06-d]="C16" [C10-d]="C02" [C09-b]="C09 C15" [C05-f]="C09")
 out=seeded/MATRIX.txt
-ids="$@"; [ -z "$ids" ] && ids=$(ls seeded | grep '^C[0-9][0-9]-' ) && : > $out
-for id in $ids; do
+one() {
+  declare -A OVERRIDE=([C01-c]="C05 C02" [C06-d]="C16" [C10-d]="C02" [C09-b]="C09 C15" [C05-f]="C09" [C01-f]="C03" [C10-f]="C12" [C16-f]="C17")
+  id=$1
   d=/verif/seeded/$id
   prop=${id%%-*}
   checks=${OVERRIDE[$id]:-$prop}
@@ -15,11 +16,16 @@ for id in $ids; do
   git -C /repo worktree add -q --detach $wt HEAD && git -C $wt apply $d/patch.diff
   res=""
   for c in $checks; do
-    n=$(VERIF_REPO=$wt VERIF_EVIDENCE_DIR=$(mktemp -d /tmp/ev_XXXX) timeout 1800 ./check $c --tier quick 2>&1 | grep -c '^VIOLATION')
+    ev=$(mktemp -d /tmp/ev_XXXX)
+    n=$(VERIF_REPO=$wt VERIF_EVIDENCE_DIR=$ev timeout 3600 ./check $c --tier quick 2>&1 | grep -c '^VIOLATION')
+    rm -rf $ev
     res="$res $c:$n"
   done
   git -C /repo worktree remove --force $wt
-  echo "$id | $conf| violations reported by$res" | tee -a $out
-done
+  echo "$id | $conf| violations reported by$res"
+}
+export -f one
+ids="$@"; [ -z "$ids" ] && ids=$(ls seeded | grep '^C[0-9][0-9]-' ) && : > $out
+printf '%s\n' $ids | xargs -P ${PAR:-3} -I{} bash -c 'one {}' | tee -a $out.part
+sort $out.part >> $out; rm -f $out.part
 git -C /repo worktree prune
-rm -rf /tmp/ev_* 2>/dev/null
